@@ -611,3 +611,22 @@ Lemma labels_colon_refuted :
     let out := get_attrs false [(k, v)] in
     forallb (fun kv => label_name_legal (fst kv)) out = false /\ point_exposed false out = false.
 Proof. exists (str "a:b"), (str "x"). split; [discriminate|]. split; vm_compute; reflexivity. Qed.
+
+Lemma name_legal_api : forall c name unit cnt,
+  api_name name = true -> utf8 c = false ->
+  exists r, get_name c name unit cnt = Name r /\ metric_name_legal r = true.
+Proof.
+  intros c name unit cnt Hn Hu. exists ((namespace_of c ++ stem c name cnt) ++
+    upart c unit (namespace_of c ++ stem c name cnt) ++ tpart c cnt).
+  split; [apply get_name_closed|].
+  apply (name_legal c name unit cnt _ Hu (api_name_nonempty _ Hn) (get_name_closed c name unit cnt)).
+Qed.
+
+Lemma name_suffix_clauses : forall c name unit cnt r,
+  get_name c name unit cnt = Name r ->
+  let i := mk_input c name unit cnt in
+  name_prefix_ok i r = true /\ name_tail_ok i r = true /\ name_exact_ok i r = true.
+Proof.
+  intros c name unit cnt r H. cbv zeta.
+  split; [eapply name_prefix; eauto|]. split; [eapply name_tail; eauto | eapply name_exact; eauto].
+Qed.
